@@ -26,6 +26,66 @@ func (c *Ctx) parsedModeCells(fn *ssa.Function) []*ssa.Alloc {
 	return out
 }
 
+// requestedModes: the client-requested access modes a handler works with: one predicate per parsed
+// cell of fn itself, or per call of a module helper that parses the mode string and returns it
+// (the helper's result stands for the load of its cell).
+func (c *Ctx) requestedModes(fn *ssa.Function) []core.VPred {
+	var out []core.VPred
+	for _, cell := range c.parsedModeCells(fn) {
+		out = append(out, isLoadOfCell(cell))
+	}
+	core.AllInstrs(fn, func(in ssa.Instruction) {
+		call, ok := in.(*ssa.Call)
+		if !ok {
+			return
+		}
+		callee := call.Call.StaticCallee()
+		if callee == nil || callee == fn || !core.InModule(callee) {
+			return
+		}
+		cells := c.parsedModeCells(callee)
+		if len(cells) != 1 {
+			return
+		}
+		ld := isLoadOfCell(cells[0])
+		res := callee.Signature.Results()
+		for i := 0; i < res.Len(); i++ {
+			if !isModeType(res.At(i).Type()) {
+				continue
+			}
+			// every non-constant returned value is the parsed cell's content
+			good, n := true, 0
+			core.AllInstrs(callee, func(x ssa.Instruction) {
+				ret, ok := x.(*ssa.Return)
+				if !ok {
+					return
+				}
+				n++
+				v := ret.Results[i]
+				if _, isK := v.(*ssa.Const); isK {
+					return
+				}
+				if !core.Derives(v, ld, true) {
+					good = false
+				}
+			})
+			if !good || n == 0 {
+				continue
+			}
+			idx, multi := i, res.Len() > 1
+			out = append(out, func(v ssa.Value) bool {
+				v = core.Strip(v)
+				if multi {
+					ex, ok := v.(*ssa.Extract)
+					return ok && ex.Tuple == ssa.Value(call) && ex.Index == idx
+				}
+				return v == ssa.Value(call)
+			})
+		}
+	})
+	return out
+}
+
 func isLoadOfCell(cell *ssa.Alloc) core.VPred {
 	return func(v ssa.Value) bool {
 		u, ok := core.Strip(v).(*ssa.UnOp)
@@ -112,13 +172,12 @@ func checkC06(c *Ctx) {
 		if !core.InPkg(fn, "server") || fn.Signature.Recv() == nil || !isPtrToNamed(fn.Signature.Recv().Type(), "Topic") {
 			continue
 		}
-		cells := c.parsedModeCells(fn)
+		modes := c.requestedModes(fn)
 		sites := c.subsUpdateSites(fn)
-		if len(cells) != 1 || len(sites) == 0 {
+		if len(modes) != 1 || len(sites) == 0 {
 			continue
 		}
-		cell := cells[0]
-		ld := isLoadOfCell(cell)
+		ld := modes[0]
 		gUnset := core.EqGuard("mode==ModeUnset", ld, core.IsConstOf(unset), true)
 		gO := core.BoolGuard("mode.IsOwner()", core.IsCallTo(isOwner, ld), true)
 		gJ := core.BoolGuard("mode.IsJoiner()", core.IsCallTo(isJoiner, ld), true)
@@ -336,14 +395,16 @@ func (c *Ctx) checkOwnerOnlyOps() {
 			}
 			r.Func(fk(fn))
 			// group topics: behind t.owner == requester. (me/fnd/p2p descriptions belong to the user.)
-			ok := false
-			for _, p := range uidParams(fn) {
-				gOwner := core.EqGuard("t.owner=="+p.Name(), core.IsFieldLoad(owner), func(v ssa.Value) bool { return core.Strip(v) == ssa.Value(p) }, true)
-				gNotGrp := core.EqGuard("t.cat!=Grp", core.IsFieldLoad(catF), core.IsConstOf(grp), false)
-				if g, cnt := core.GuardedByNil(fn, call, gOwner, gNotGrp); g && cnt[0] > 0 {
-					ok = true
+			ok := c.liftToCallers(fn, call, 0, func(f *ssa.Function, at ssa.Instruction) bool {
+				for _, p := range uidParams(f) {
+					gOwner := core.EqGuard("t.owner=="+p.Name(), core.IsFieldLoad(owner), func(v ssa.Value) bool { return core.Strip(v) == ssa.Value(p) }, true)
+					gNotGrp := core.EqGuard("t.cat!=Grp", core.IsFieldLoad(catF), core.IsConstOf(grp), false)
+					if g, cnt := core.GuardedByNil(f, at, gOwner, gNotGrp); g && cnt[0] > 0 {
+						return true
+					}
 				}
-			}
+				return false
+			})
 			r.Check(ok, "C06.5-owner-only-ops", fmt.Sprintf("%s: Topics.Update%v", fk(fn), sortedStrings(hit)), c.pos(call),
 				"reachable for a group topic only through t.owner == requester", "a non-owner can change the group's public/trusted description, default access or tags")
 		}
@@ -385,15 +446,22 @@ func (c *Ctx) checkOwnerOnlyOps() {
 					continue
 				}
 				r.Func(fk(fn))
-				var gs []core.Guard
-				for _, p := range uidParams(fn) {
-					gs = append(gs, core.EqGuard("t.owner=="+p.Name(), core.IsFieldLoad(owner), func(v ssa.Value) bool { return core.Strip(v) == ssa.Value(p) }, true))
-				}
-				for _, kn := range []string{"TopicCatMe", "TopicCatFnd", "TopicCatP2P", "TopicCatSys"} {
-					gs = append(gs, core.EqGuard("t.cat=="+kn, core.IsFieldLoad(catF), core.IsConstOf(c.konst("server/store/types", kn)), true))
-				}
-				gs = append(gs, core.EqGuard("t.cat!=TopicCatGrp", core.IsFieldLoad(catF), core.IsConstOf(grp), false))
-				ok, cnt := core.GuardedBy(fn, ref, gs...)
+				ok := c.liftToCallers(fn, ref, 0, func(f *ssa.Function, at ssa.Instruction) bool {
+					var gs []core.Guard
+					for _, p := range uidParams(f) {
+						gs = append(gs, core.EqGuard("t.owner=="+p.Name(), core.IsFieldLoad(owner), func(v ssa.Value) bool { return core.Strip(v) == ssa.Value(p) }, true))
+					}
+					if len(gs) == 0 {
+						return false
+					}
+					for _, kn := range []string{"TopicCatMe", "TopicCatFnd", "TopicCatP2P", "TopicCatSys"} {
+						gs = append(gs, core.EqGuard("t.cat=="+kn, core.IsFieldLoad(catF), core.IsConstOf(c.konst("server/store/types", kn)), true))
+					}
+					gs = append(gs, core.EqGuard("t.cat!=TopicCatGrp", core.IsFieldLoad(catF), core.IsConstOf(grp), false))
+					g, cnt := core.GuardedBy(f, at, gs...)
+					return g && cnt[0] > 0
+				})
+				cnt := []int{1}
 				r.Check(ok && cnt[0] > 0, "C06.5b-owner-only-desc", fmt.Sprintf("%s: %s of the map passed to Topics.Update", fk(fn), what), c.pos(ref),
 					"for a group topic reachable only through t.owner == requester", "a non-owner can add public/trusted/default-access changes to the group's update")
 			}
